@@ -96,8 +96,11 @@ def check(ctx):
         FS = cands[-1].targets[0]
     env = {"_FS": FS}
     scn, bcn = first(stm, "_CN = util.unique_keys(itertools.chain(*_FS))", env)
-    if bcn is None:
-        scn, bcn = first(stm, "_CN = list(dict.fromkeys(itertools.chain(*_FS)))", env)
+    for alt in ("_CN = list(dict.fromkeys(itertools.chain(*_FS)))", "_CN = util.unique_keys(itertools.chain.from_iterable(_FS))",
+                "_CN = list(dict.fromkeys(itertools.chain.from_iterable(_FS)))", "_CN = util.unique_keys([_X for _D in _FS for _X in _D])",
+                "_CN = list(dict.fromkeys((_X for _D in _FS for _X in _D)))"):
+        if bcn is None:
+            scn, bcn = first(stm, alt, env)
     uk = repo.fn("dataiter.util.unique_keys")
     uk_ok = any(pmatch(f"list(dict.fromkeys({uk.params[0]}))", r.value) is not None for r in body_nodes(uk.node) if isinstance(r, ast.Return))
     ok = bcn is not None and uk_ok
